@@ -41,6 +41,7 @@ GenSpec == Init /\ [][GenNext]_vars
 SeqSet(s) == {s[i] : i \in 1..Len(s)}
 PairsFun(ps) == [a \in {ps[i][1] : i \in 1..Len(ps)} |-> (ps[CHOOSE i \in 1..Len(ps) : ps[i][1] = a][2])]
 
+SameColl(s, t) == Len(s) = Len(t) /\ SeqSet(s) = SeqSet(t)
 ValidClauses(d, L) ==
     LET I == Interp(d)
         LH == PairsFun(L.hosts)
@@ -52,13 +53,19 @@ ValidClauses(d, L) ==
     IN
     << <<"C17", "field.subnets", L.subnets = I.subnets>>,
        <<"C17", "field.topology", L.topology = I.topology>>,
+       \* name lists and definitions are compared as collections: the ORDER in which a scenario keeps them is not
+       \* among the things C17 says are reproduced (it is noted as DRIFT)
        <<"C17", "field.os_services_processes",
-         L.os = I.os /\ L.services = I.services /\ L.processes = I.processes>>,
+         /\ SameColl(L.os, I.os) /\ SameColl(L.services, I.services) /\ SameColl(L.processes, I.processes)>>,
+       <<"DRIFT", "field.order_of_names_and_definitions",
+         /\ L.os = I.os /\ L.services = I.services /\ L.processes = I.processes
+         /\ L.exploits = I.exploits /\ L.privescs = I.privescs>>,
        <<"C17", "field.sensitive_hosts", PairsFun(L.sens) = I.sens>>,
-       <<"C17", "field.exploits", L.exploits = I.exploits>>,
-       <<"C17", "field.privilege_escalation", L.privescs = I.privescs>>,
+       <<"C17", "field.exploits", SameColl(L.exploits, I.exploits)>>,
+       <<"C17", "field.privilege_escalation", SameColl(L.privescs, I.privescs)>>,
        <<"C17", "field.scan_costs", L.scan = I.scan>>,
-       <<"C17", "field.host_order", L.hostorder = I.hostorder>>,
+       \* the order in which the hosts are listed is not among the things C17 says the scenario reproduces: noted only
+       <<"DRIFT", "field.host_order", L.hostorder = I.hostorder>>,
        <<"C17", "field.host_os_services_processes", \A a \in DOMAIN I.hosts : same(a)>>,
        <<"C17", "field.host_values",
          \A a \in DOMAIN I.hosts : a \in DOMAIN LH /\ LH[a].value = I.hosts[a].value>>,
